@@ -37,6 +37,8 @@ static long long vnd_next(const char *kind) {
 #define V_ASSUME(c) do { if (!(c)) { printf("REPLAY-ASSUME-VIOLATED: %s\n", #c); fflush(stdout); exit(77); } } while (0)
 #define V_COVER(label) ((void) 0)
 #define V_MALLOC_OK(p) do { if (!(p)) exit(78); } while (0)
+#include <malloc.h>
+#define __CPROVER_OBJECT_SIZE(p) malloc_usable_size((void *) (p))   /* under ASan: the requested size */
 #else
 int nondet_int(void); unsigned nondet_uint(void); unsigned short nondet_u16(void); long long nondet_ll(void);
 unsigned char nondet_u8(void); size_t nondet_size(void);
